@@ -11,4 +11,7 @@ CASES = [
          new="        if ex is not None:\n            observer.on_error(ex)\n        else:\n            observer.on_next(self.value)\n            observer.on_completed()")]),
     dict(expect="silent", desc="value stored before taking the snapshot", edits=[dict(file=B,
          old="            observers = self.observers.copy()\n            self.value = value", new="            self.value = value\n            observers = self.observers.copy()")]),
+    dict(expect="fire", desc="seed C21/3: value stored only after delegating the broadcast to Subject", names="B2-state-before-callout", edits=[dict(file="reactivex/subject/behaviorsubject.py",
+         old="        with self.lock:\n            observers = self.observers.copy()\n            self.value = value\n\n        for observer in observers:\n            observer.on_next(value)\n",
+         new="        super()._on_next_core(value)\n        with self.lock:\n            self.value = value\n")]),
 ]
